@@ -11,6 +11,7 @@
 #include <rime/service.h>
 #include <rime/dict/level_db.h>
 #include <rime/dict/user_db.h>
+#include <rime/verif_hooks.h>
 
 namespace rime {
 
@@ -177,6 +178,9 @@ bool LevelDb::Fetch(const string& key, string* value) {
 }
 
 bool LevelDb::Update(const string& key, const string& value) {
+#ifdef RIME_VERIF_HOOKS
+  verif::db_op("update", name(), key, value, loaded(), in_transaction());
+#endif
   if (!loaded() || readonly())
     return false;
   DLOG(INFO) << "update db entry: " << key << " => " << value;
@@ -184,6 +188,9 @@ bool LevelDb::Update(const string& key, const string& value) {
 }
 
 bool LevelDb::Erase(const string& key) {
+#ifdef RIME_VERIF_HOOKS
+  verif::db_op("erase", name(), key, "", loaded(), in_transaction());
+#endif
   if (!loaded() || readonly())
     return false;
   DLOG(INFO) << "erase db entry: " << key;
@@ -240,6 +247,9 @@ bool LevelDb::Remove() {
 }
 
 bool LevelDb::Open() {
+#ifdef RIME_VERIF_HOOKS
+  verif::db_op("open", name(), "", "", loaded(), in_transaction());
+#endif
   if (loaded())
     return false;
   Initialize();
@@ -276,6 +286,9 @@ bool LevelDb::OpenReadOnly() {
 }
 
 bool LevelDb::Close() {
+#ifdef RIME_VERIF_HOOKS
+  verif::db_op("close", name(), "", "", loaded(), in_transaction());
+#endif
   if (!loaded())
     return false;
 
@@ -301,6 +314,9 @@ bool LevelDb::MetaUpdate(const string& key, const string& value) {
 }
 
 bool LevelDb::BeginTransaction() {
+#ifdef RIME_VERIF_HOOKS
+  verif::db_op("begin", name(), "", "", loaded(), in_transaction());
+#endif
   if (!loaded())
     return false;
   db_->ClearBatch();
@@ -309,6 +325,9 @@ bool LevelDb::BeginTransaction() {
 }
 
 bool LevelDb::AbortTransaction() {
+#ifdef RIME_VERIF_HOOKS
+  verif::db_op("abort", name(), "", "", loaded(), in_transaction());
+#endif
   if (!loaded() || !in_transaction())
     return false;
   db_->ClearBatch();
@@ -317,6 +336,9 @@ bool LevelDb::AbortTransaction() {
 }
 
 bool LevelDb::CommitTransaction() {
+#ifdef RIME_VERIF_HOOKS
+  verif::db_op("commit", name(), "", "", loaded(), in_transaction());
+#endif
   if (!loaded() || !in_transaction())
     return false;
   bool ok = db_->CommitBatch();
